@@ -6,7 +6,7 @@ struct W { int code; unsigned w; };
 // weights per profile
 const W BASE[] = {{OP_NEW_INT, 5}, {OP_NEW_FLOAT, 2}, {OP_NEW_CTRL, 2}, {OP_NEW_BSTR, 3}, {OP_NEW_TSTR, 3}, {OP_NEW_INDEF_BSTR, 2}, {OP_NEW_INDEF_TSTR, 2}, {OP_NEW_DEF_ARRAY, 4}, {OP_NEW_INDEF_ARRAY, 4},
                   {OP_NEW_DEF_MAP, 3}, {OP_NEW_INDEF_MAP, 3}, {OP_NEW_TAG, 2}, {OP_BUILD_TAG, 3}, {OP_PUSH, 10}, {OP_PUSH_MANY, 1}, {OP_SET, 3}, {OP_REPLACE, 6}, {OP_GET, 6}, {OP_MAP_ADD, 6}, {OP_ADD_CHUNK, 4},
-                  {OP_TAG_SET, 3}, {OP_TAG_ITEM, 3}, {OP_COPY, 3}, {OP_LOAD, 2}, {OP_LOAD_RAW, 1}, {OP_SERIALIZE_ALLOC, 2}, {OP_SERIALIZE, 1}, {OP_SIZE, 1}, {OP_DESCRIBE, 1}, {OP_INCREF, 5}, {OP_DECREF, 11},
+                  {OP_TAG_SET, 3}, {OP_TAG_ITEM, 3}, {OP_COPY, 4}, {OP_LOAD, 2}, {OP_LOAD_RAW, 3}, {OP_SERIALIZE_ALLOC, 2}, {OP_SERIALIZE, 1}, {OP_SIZE, 1}, {OP_DESCRIBE, 1}, {OP_INCREF, 5}, {OP_DECREF, 11},
                   {OP_INTERMEDIATE_DECREF, 2}, {OP_SETVAL, 2}, {OP_MARK, 1}, {OP_GETTERS, 2}};
 const W SER[] = {{OP_NEW_INT, 8}, {OP_NEW_FLOAT, 6}, {OP_NEW_CTRL, 3}, {OP_NEW_BSTR, 6}, {OP_NEW_TSTR, 6}, {OP_NEW_INDEF_BSTR, 3}, {OP_NEW_INDEF_TSTR, 3}, {OP_NEW_DEF_ARRAY, 5}, {OP_NEW_INDEF_ARRAY, 5},
                  {OP_NEW_DEF_MAP, 4}, {OP_NEW_INDEF_MAP, 4}, {OP_NEW_TAG, 2}, {OP_BUILD_TAG, 4}, {OP_PUSH, 10}, {OP_PUSH_MANY, 2}, {OP_SET, 2}, {OP_REPLACE, 3}, {OP_GET, 1}, {OP_MAP_ADD, 7}, {OP_ADD_CHUNK, 6},
@@ -66,7 +66,10 @@ void gen_hist_ops(Rng& g, Rng& fr, const std::string& prop, unsigned nops, bool 
     }
     if (code <= OP_BUILD_TAG || code == OP_COPY || code == OP_LOAD || code == OP_LOAD_RAW || code == OP_GET || code == OP_TAG_ITEM || code == OP_INCREF) n_pool++;
     if ((code == OP_DECREF || code == OP_INTERMEDIATE_DECREF) && n_pool) n_pool--;
-    if (with_faults && fr.chance(1, 5)) {
+    if (with_faults && (code == OP_LOAD || code == OP_LOAD_RAW || code == OP_COPY) && fr.chance(1, 2)) {
+      // whole-tree operations make many requests: spread single refusals over all of them (index taken modulo the real count)
+      o.fk = fr.chance(3, 4) ? F_NTH : F_FROM; o.fkk = fr.below(64);
+    } else if (with_faults && fr.chance(1, 5)) {
       switch (fr.below(6)) { case 0: case 1: o.fk = F_NTH; o.fkk = fr.below(8); break; case 2: case 3: o.fk = F_FROM; o.fkk = fr.below(6); break; case 4: o.fk = F_REALLOC_ONLY; o.fkk = 0; break; default: o.fk = F_PROB; o.fkk = fr.range(100, 500); }
     }
     if (deep_follow > 0 && code != OP_LOAD_RAW) { o.a = SEL_LAST; deep_follow--; }
